@@ -3,7 +3,7 @@
 root=${1:-/tmp/wt2}
 out=${2:-/tmp/r2/sweep}
 mkdir -p $out
-ls $root/*/_seeded/refactor*.diff 2>/dev/null | xargs -P 10 -I{} bash -c 'd={}; p=$(basename $(dirname $(dirname $d))); k=$(basename $d .diff); CUT=300 /verif/tools/try_diff.sh $d > '$out'/$p.$k.txt 2>&1'
+ls $root/*/_seeded/refactor*.diff 2>/dev/null | xargs -P 10 -I{} bash -c 'd={}; p=$(basename $(dirname $(dirname $d))); k=$(basename $d .diff); CUT=300 '$(dirname $0)'/try_diff.sh $d > '$out'/$p.$k.txt 2>&1'
 for f in $out/*.txt; do
   if [ -s $f ]; then echo "== $(basename $f .txt)"; grep -v "^    \|replay=" $f | head -${LINES_PER:-6}; fi
 done
